@@ -345,6 +345,15 @@ func (h *SexpHash) TypeCheckField(key Sexp, val Sexp) error {
 		if !ok {
 			return fmt.Errorf("%s has no field '%s' [err 2]", p.UserStructDefn.Name, k)
 		}
+		if rec, isRec := val.(*SexpHash); isRec && (!declaredTyp.IsUser || declaredTyp.IsPointer ||
+			strings.HasPrefix(declaredTyp.RegisteredName, "[]") || strings.HasPrefix(declaredTyp.RegisteredName, "*")) {
+			// a record's type is looked up by its type name, and a
+			// record can be given any name (msgmap, "Atype" in
+			// JSON): one named int64 or []int64 would pass for a
+			// value of that type. Built-in, slice and pointer types hold no records.
+			return fmt.Errorf("field %v.%v is %v, cannot assign the record '%v'",
+				p.UserStructDefn.Name, k, declaredTyp.SexpString(nil), rec.SexpString(nil))
+		}
 		if _, isType := val.(*RegisteredType); isType {
 			// a type is its own Type(), so it would pass for a
 			// value of that type below
